@@ -249,6 +249,13 @@ class Interp:
                 # the engine (or the contract code, e.g. on a result of an unexpected shape) cannot go on along this
                 # path: a checker error for the scenario -- but what was obliged BEFORE that point still counts
                 r = ("unsupported", e)
+            except (AttributeError, TypeError, KeyError, IndexError, ValueError, AssertionError) as e:
+                # the contract's own (host Python) code tripped over a state / result of a form it does not expect:
+                # same treatment -- a checker error, the obligations emitted before (e.g. a failed loop invariant
+                # 'state has the form the invariant describes') are kept
+                import traceback as _tb
+
+                r = ("unsupported", Unsupported(f"contract code: {type(e).__name__}: {e} @ {_tb.extract_tb(e.__traceback__)[-1].filename.split('/')[-1]}:{_tb.extract_tb(e.__traceback__)[-1].lineno}"))
             results.append((self.ctx, list(self.decisions), r))
         return results
 
